@@ -1,4 +1,4 @@
-"""C15: data-race freedom — (a) happens-before monitor on the sequentialised Resource, (b) lock discipline of ConcurrentSubjectRouter (+ C01). ThreadPool: outside (see DESIGN 8.3)."""
+"""C15: data-race freedom — (a) happens-before monitor on the sequentialised Resource, (b) lock discipline of ConcurrentSubjectRouter (+ C01), (c) happens-before monitor on the sequentialised ThreadPool/Thread."""
 from checks.resource_common import *
 from checks import c11 as C11
 from checks.skel import run_cubes
@@ -8,7 +8,7 @@ RT_HB = ('rt_cbmc.c', 'rt_model.c', 'rt_sched.c', 'rt_hb.c')
 
 def plan(tier):
     qs = []
-    sets = [(('R', 'W'), 14), (('W', 'W'), 14), (('R', 'R'), 14), (('RW', 'W'), 22)] if tier == 'quick' else [(('R', 'W'), 14), (('W', 'W'), 14), (('RW', 'WR'), 28), (('R', 'R', 'W'), 22), (('R', 'W', 'W'), 22)]
+    sets = [(('R', 'W'), 14), (('W', 'W'), 14), (('R', 'R'), 14)] if tier == 'quick' else [(('R', 'W'), 14), (('W', 'W'), 14), (('R', 'R'), 14), (('RW', 'W'), 22), (('RW', 'WR'), 28), (('R', 'R', 'W'), 22), (('R', 'W', 'W'), 22)]
     for progs, K in sets:
         q = ResQuery('hb_%s' % '_'.join(progs), progs, harness_defs=['HB_MONITOR=1'], K=K, timeout=2400,
                      desc={'component': 'rwp::Resource + guards', 'threads': list(progs), 'symbolic': 'the schedule (%d thread choices) and the watched byte (any byte of the Resource object)' % K,
@@ -23,24 +23,29 @@ def plan(tier):
 
 
 def pool_plan(tier):
-    """(c) ThreadPool: owner program x expiry setting; happens-before monitor over the pool object, the objects it allocates and the submitted tasks"""
+    """(c) ThreadPool: owner program x expiry setting; happens-before monitor over the pool object, the objects it allocates and the submitted tasks.
+    Each query is split into schedule-prefix cubes (run in parallel)."""
     from checks import pool_common as PC
-    progs = [((1,), -1, 26, 'stop'), ((1, 6, 5), 0, 24, 'expiry')] if tier == 'quick' else [((1,), -1, 26, 'stop'), ((1, 6, 5), 0, 26, 'expiry'), ((1, 1, 6), 0, 30, 'expiry2')]
+    progs = [((1,), -1, 12, 'stop', 2), ((1, 6, 5), 0, 12, 'expiry', 2)] if tier == 'quick' else [((1,), -1, 22, 'stop', 4), ((1, 6, 5), 0, 22, 'expiry', 4), ((1, 1, 6), 0, 24, 'expiry2', 4)]
     qs = []
-    for ops, expiry, K, tag in progs:
-        q = PC.pool_query('hb_pool_%s_k%d' % (tag, K), ops, 1, K, prefix_only=True, liveness=False, harness_defs=['HB_MONITOR=1', 'EXPIRY=%d' % expiry], expect_reach=())
-        q.rt = list(RT_HB)
-        q.ll2c_kw = dict(q.ll2c_kw, acc_prefixes=('',))
-        q.cbmc_defines = q.cbmc_defines + ['VF_HB=1', 'VF_NEW_HOOK=1', 'NTRACK=12']
-        q.required_reach = ['the watched byte is accessed by two different threads']
-        q.unwindset = q.unwindset + ['__vf_acc.0:14', '__vf_hb_track.0:14', 'slot.0:10']
-        q.desc = dict(q.desc, component='ThreadPool + Thread', expiry_timeout=expiry, symbolic='the schedule (%d thread choices), the clock, and the watched byte (any byte of the pool, its worker/runnable/thread-state objects and the tasks)' % K)
-        q.native_racy = {}
-        qs.append(q)
+    for ops, expiry, K, tag, bits in progs:
+        for q in PC.cubed(('hb_pool_%s_k%d' % (tag, K), ops, 1, K), dict(racy=False, prefix_only=True, liveness=False, harness_defs=['HB_MONITOR=1', 'EXPIRY=%d' % expiry], expect_reach=('the watched byte is accessed by two different threads',)), bits):
+            q.rt = list(RT_HB)
+            q.ll2c_kw = dict(q.ll2c_kw, acc_prefixes=('',))
+            q.cbmc_defines = q.cbmc_defines + ['VF_HB=1', 'VF_NEW_HOOK=1', 'NTRACK=12']
+            q.unwindset = q.unwindset + ['__vf_acc.0:14', '__vf_hb_track.0:14', 'slot.0:10']
+            q.desc = dict(q.desc, component='ThreadPool + Thread', expiry_timeout=expiry, symbolic='the rest of the schedule (%d thread choices in all), the clock, and the watched byte (any byte of the pool, its worker/runnable/thread-state objects and the tasks)' % K)
+            q.native_racy = {}
+            qs.append(q)
     return qs
 
 
 class C15Check(ResCheck):
+    def classify(self, queries, finding_of=None, required_reach=None):
+        from checks.pool_common import group_rule
+        ResCheck.classify(self, queries, finding_of, required_reach)
+        group_rule(self, queries)      # schedule-prefix cubes of the pool queries
+
     def confirm(self, q, path):
         """native confirmation of a race on the Resource: the same thread programs on real threads under ThreadSanitizer"""
         import subprocess, json
@@ -79,10 +84,13 @@ def run(tier, seed):
         cubes = cubes[::3]
     ck.bounds = {'Resource': 'quick: 2 threads x <=2 pairs; thorough adds 3 threads x 1 pair; every schedule of K steps, every byte of the Resource object as watched location',
                  'ConcurrentSubjectRouter': 'lock discipline of every operation (see C11): with C01 every pair of conflicting accesses to router memory is ordered by the Resource',
-                 'ThreadPool': 'NOT covered: the sequentialised ThreadPool.cpp does not fit the engine budget (DESIGN 8.3); suspected races on m_isRunning / m_isFinished are neither confirmed nor refuted by this check',
+                 'ThreadPool': 'owner programs start;stop and start;getters;update;stop with expiring workers (timeout 0, arbitrary clock): every schedule prefix of K steps (quick 14/16, thorough 22-24), every byte of the pool object, '
+                               'of the worker / runnable / thread-state objects it allocates and of the submitted tasks as watched location',
                  'outside': 'weak memory; accesses removed by the -O1 optimiser'}
     ck.assumptions = COMMON_ASSUME + ['accesses are those of the -O1 IR (a race optimised away would be missed)', 'the model mutex word and the model condition variable are synchronisation objects, not data']
     ck.collect_functions([H, os.path.join(ck.ws.prepare_repo(), 'src/threading/rwp/Resource.cpp')], ['NW=2', 'P0=5', 'P1=1', 'HB_MONITOR=1'])
+    pq = pool_plan(tier)
+    qs = qs + pq
     ck.run_all(qs)
     ck.classify(qs)
     # part (b): lock discipline cubes (same machinery as C11)
@@ -94,13 +102,14 @@ def run(tier, seed):
     ck.violations += ck2.violations
     ck.replays_confirmed += ck2.replays_confirmed
     return ck.finish(qs + cubes, rule='(a) one CBMC query per thread-program multiset over the sequentialised, access-instrumented Resource.cpp: over every schedule and every watched byte no unordered conflicting accesses; '
-                     '(b) one query per (subscriptions, operation, pattern) cube: router memory is accessed only with the Resource held in the right mode', stubs=['see C01 and C11'])
+                     '(b) one query per (subscriptions, operation, pattern) cube: router memory is accessed only with the Resource held in the right mode; '
+                     '(c) the same happens-before monitor on the sequentialised ThreadPool.cpp/Thread.cpp (mutex release->acquire, thread start/join, atomics), schedule-prefix cubes', stubs=['see C01, C08 and C11'])
 
 
 def replay(path):
     import json
     rp = json.load(open(path))
-    ck = C15Check('C15', 'quick', 0) if 'h_res' in ' '.join(rp['harness']) else C11.C11Check('C15', 'quick', 0)
+    ck = C15Check('C15', 'quick', 0) if ('h_res' in ' '.join(rp['harness']) or 'h_pool' in ' '.join(rp['harness'])) else C11.C11Check('C15', 'quick', 0)
     ok, out = ck.confirm(None, path)
     print(out)
     if ok:
